@@ -645,7 +645,7 @@ def _some_str(value):
         return str(value)
     except Exception:
         pass
-    return '<unprintable %s object>' % type(value).__name__
+    return '<exception str() failed>'  # as the traceback module prints it
 
 
 def _format_final_exc_line(etype, value):
